@@ -433,9 +433,19 @@ def compare_static(ctx, interp, case, res, fail, max_ops=4):
     # decoder): what remains is activation quantization and clipping to the ranges calibrated on the float model, so the bound is
     # "activation term + distance between the two float models"; this is what exposes a kernel reading the stored constants wrongly.
     # Constants being close to the originals is C05's oracle.
-    c_float = {(8, 8): 0.2, (16, 8): 0.2, (8, 4): 0.6, (16, 4): 0.6}[(abits, wbits)]
+    # (4-bit weights: 15 levels for a whole tensor / channel -- a row of small weights vanishes altogether and its output is the bias alone,
+    # so against the FLOAT model the deviation can reach the magnitude itself; the comparison with the stored-constants model below stays tight)
+    c_float = {(8, 8): 0.2, (16, 8): 0.2, (8, 4): 1.0, (16, 4): 1.0}[(abits, wbits)]
     c_ref = 0.06 if abits == 8 else 0.015
-    ref, _ = reference_model(case.mb, res["out"])
+    ref, why_ = reference_model(case.mb, res["out"])
+    if ref is None and isinstance(why_, str) and why_.startswith("cannot decode"):
+        # the bytes stored for a rewritten constant are not an encoding of its type and shape (wrong length, ...): the integer kernel reads
+        # whatever lies there; how far the outputs are off is reported along with it
+        err_ = max((float(np.max(np.abs(np.asarray(ra[k], dtype=np.float64) - np.asarray(rb[k], dtype=np.float64))))
+                    for sig in a[1] for ra, rb in zip(a[1][sig], b[1][sig]) for k in ra
+                    if np.asarray(ra[k]).shape == np.asarray(rb[k]).shape and np.asarray(rb[k]).dtype != bool and np.asarray(rb[k]).size), default=0.0)
+        return fail(f"a constant of the static-range model is not stored the way the integer kernels read it ({why_}); "
+                    f"outputs are {err_:.4g} away from the float outputs", "c07-constant-not-decodable")
     c = outputs_of(interp, ref, data, ctx) if ref is not None else ("none", None)
     # kernels with a FIXED output range (tanh / logistic / softmax: step 1/128 or 1/256 at 8 bits whatever the data) put a floor under
     # the resolution of everything downstream, however small the calibrated magnitudes are
